@@ -31,10 +31,11 @@ VARIABLES cap,
           obsOf, obsIdx, obsRetAt, obsSt, nObs, dataTag, dataPend, dataPre, \* C02 registration state
           stage, seen, mustObs, annAtClose,                     \* C02 per-session close progress
           lifeCalled, tdAt, tdUj, cancelled,
+          overl,      \* <<t, s>>: the receive of t on s has been in flight together with another receive or a flush on s
           owed        \* owed[s]: bytes a receive has skipped because a CONCURRENT receive on s (called earlier, not returned yet in
                       \* the log) took them - two threads may log their returns in either order; each must still be returned
 vars == <<l, cap, arrived, arrDone, disab, cur, closedAt, ovfSeen, maxBacklog, pendRecv, pendFlush, handed, conn, engConn, onBehalf,
-          willOk, obsOf, obsIdx, obsRetAt, obsSt, nObs, dataTag, dataPend, dataPre, stage, seen, mustObs, annAtClose, lifeCalled, tdAt, tdUj, cancelled, owed>>
+          willOk, obsOf, obsIdx, obsRetAt, obsSt, nObs, dataTag, dataPend, dataPre, stage, seen, mustObs, annAtClose, lifeCalled, tdAt, tdUj, cancelled, overl, owed>>
 
 FS(v) == [s \in Sess |-> v]
 NoConn == [st |-> "idle", to |-> 0, vt |-> 0, sid |-> -1]
@@ -45,7 +46,7 @@ Canon(c) == /\ cap' = c
             /\ obsOf' = [g \in Tags |-> -1] /\ obsIdx' = [g \in Tags |-> 0] /\ obsRetAt' = [g \in Tags |-> 0] /\ obsSt' = [g \in Tags |-> "none"] /\ nObs' = 0
             /\ dataTag' = FS("-") /\ dataPend' = FS({}) /\ dataPre' = FS(FALSE)
             /\ stage' = FS("none") /\ seen' = FS(<<>>) /\ mustObs' = FS({}) /\ annAtClose' = FS(FALSE)
-            /\ lifeCalled' = FALSE /\ tdAt' = -1 /\ tdUj' = 0 /\ cancelled' = FALSE /\ owed' = FS({})
+            /\ lifeCalled' = FALSE /\ tdAt' = -1 /\ tdUj' = 0 /\ cancelled' = FALSE /\ overl' = {} /\ owed' = FS({})
 Init == /\ l = 1 /\ cap = 0
         /\ arrived = FS(0) /\ arrDone = FS(0) /\ disab = FS({}) /\ cur = FS(0) /\ closedAt = FS(-1) /\ ovfSeen = FS(FALSE) /\ maxBacklog = FS(0)
         /\ pendRecv = {} /\ pendFlush = {}
@@ -53,14 +54,15 @@ Init == /\ l = 1 /\ cap = 0
         /\ obsOf = [g \in Tags |-> -1] /\ obsIdx = [g \in Tags |-> 0] /\ obsRetAt = [g \in Tags |-> 0] /\ obsSt = [g \in Tags |-> "none"] /\ nObs = 0
         /\ dataTag = FS("-") /\ dataPend = FS({}) /\ dataPre = FS(FALSE)
         /\ stage = FS("none") /\ seen = FS(<<>>) /\ mustObs = FS({}) /\ annAtClose = FS(FALSE)
-        /\ lifeCalled = FALSE /\ tdAt = -1 /\ tdUj = 0 /\ cancelled = FALSE /\ owed = FS({})
+        /\ lifeCalled = FALSE /\ tdAt = -1 /\ tdUj = 0 /\ cancelled = FALSE /\ overl = {} /\ owed = FS({})
 EvReset == IsEv("Reset") /\ Canon(0)
 EvBegin == IsEv("Begin") /\ Canon(Ev.cap)
 
 C03U == UNCHANGED <<arrived, arrDone, disab, cur, closedAt, ovfSeen, maxBacklog, pendRecv, pendFlush>>
 C04U == UNCHANGED <<handed, conn, engConn, onBehalf, willOk>>
 C02U == UNCHANGED <<obsOf, obsIdx, obsRetAt, obsSt, nObs, dataTag, dataPend, dataPre, stage, seen, mustObs, annAtClose>>
-Keep0 == UNCHANGED <<cap, lifeCalled, tdAt, tdUj, cancelled>>
+KeepL == UNCHANGED <<cap, lifeCalled, tdAt, tdUj, cancelled>>
+Keep0 == KeepL /\ UNCHANGED overl
 Keep == Keep0 /\ UNCHANGED owed
 \* a call that was blocked or in flight when destruction began returns within this much (virtual) time of its beginning
 \* (judged on the call's own deadline, which no other thread's time-out can move: once destruction has begun, a call may
@@ -126,7 +128,10 @@ EvData == /\ IsEv("Data") /\ ~Ev.as
 \* the 6th component remembers whether deliverable bytes were already sitting in the buffer when the call began
 Waiting(s) == \E b \in cur[s]..(arrDone[s] - 1) : b \notin disab[s]
 EvRecvCall == /\ IsEv("RecvCall") /\ pendRecv' = pendRecv \cup {<<Ev.t, Ev.s, Ev.len, Ev.to, Ev.vt, Waiting(Ev.s)>>}
-              /\ UNCHANGED <<arrived, arrDone, disab, cur, closedAt, ovfSeen, maxBacklog, pendFlush>> /\ C04U /\ C02U /\ Keep
+              /\ overl' = IF (\E r \in pendRecv : r[2] = Ev.s) \/ (\E f \in pendFlush : f[2] = Ev.s)
+                           THEN overl \cup {<<Ev.t, Ev.s>>} \cup {<<r[1], r[2]>> : r \in {x \in pendRecv : x[2] = Ev.s}}
+                           ELSE overl
+              /\ UNCHANGED <<arrived, arrDone, disab, cur, closedAt, ovfSeen, maxBacklog, pendFlush>> /\ C04U /\ C02U /\ KeepL /\ UNCHANGED owed
 MyRecv == CHOOSE r \in pendRecv : r[1] = Ev.t /\ r[2] = Ev.s
 EvRecvRet ==
     /\ IsEv("RecvRet") /\ \E r \in pendRecv : r[1] = Ev.t /\ r[2] = Ev.s
@@ -154,14 +159,17 @@ EvRecvRet ==
               /\ UNCHANGED <<cur, ovfSeen, owed>>
          [] Ev.res = "ShuttingDown" -> lifeCalled /\ UNCHANGED <<cur, ovfSeen, owed>>
          [] Ev.res = "Cancelled" ->        \* single-waiter contract: another receive or a flush on the session is in flight
-              /\ (\E r \in pendRecv \ {MyRecv} : r[2] = s) \/ (\E f \in pendFlush : f[2] = s)
+              \* (at some moment of this call - not necessarily still when its return is logged)
+              /\ <<Ev.t, s>> \in overl \/ (\E r \in pendRecv \ {MyRecv} : r[2] = s) \/ (\E f \in pendFlush : f[2] = s)
               /\ UNCHANGED <<cur, ovfSeen, owed>>
          [] OTHER -> FALSE
-    /\ UNCHANGED <<arrived, arrDone, disab, closedAt, maxBacklog, pendFlush>> /\ C04U /\ C02U /\ Keep0
+    /\ overl' = overl \ {<<Ev.t, Ev.s>>}
+    /\ UNCHANGED <<arrived, arrDone, disab, closedAt, maxBacklog, pendFlush>> /\ C04U /\ C02U /\ KeepL
 
 EvModeCall == /\ IsEv("ModeCall")
               /\ pendFlush' = IF Ev.m = "async" THEN pendFlush \cup {<<Ev.t, Ev.s>>} ELSE pendFlush
-              /\ UNCHANGED <<arrived, arrDone, disab, cur, closedAt, ovfSeen, maxBacklog, pendRecv>> /\ C04U /\ C02U /\ Keep
+              /\ overl' = IF Ev.m = "async" THEN overl \cup {<<r[1], r[2]>> : r \in {x \in pendRecv : x[2] = Ev.s}} ELSE overl
+              /\ UNCHANGED <<arrived, arrDone, disab, cur, closedAt, ovfSeen, maxBacklog, pendRecv>> /\ C04U /\ C02U /\ KeepL /\ UNCHANGED owed
 EvModeRet == /\ IsEv("ModeRet")
              /\ Ev.ok \/ lifeCalled \/ TRUE     \* (a refused switch is allowed by configuration / teardown)
              /\ pendFlush' = pendFlush \ {<<Ev.t, Ev.s>>}
@@ -278,8 +286,8 @@ EvCloseRet == /\ IsEv("CloseRet") /\ stage[Ev.s] \in {"start", "global", "obs", 
               /\ UNCHANGED <<obsOf, obsIdx, obsRetAt, obsSt, nObs, dataTag, dataPend, dataPre, seen, mustObs, annAtClose>> /\ C03U /\ C04U /\ Keep
 
 \* ---- C05 --------------------------------------------------------------------------------------------
-EvCancelCall == /\ IsEv("CancelCall") /\ cancelled' = TRUE /\ UNCHANGED <<cap, lifeCalled, tdAt, tdUj, owed>> /\ C03U /\ C04U /\ C02U
-EvLifeCall == /\ IsEv("LifeCall") /\ lifeCalled' = TRUE /\ UNCHANGED <<cap, owed, cancelled>> /\ C03U /\ C04U /\ C02U
+EvCancelCall == /\ IsEv("CancelCall") /\ cancelled' = TRUE /\ UNCHANGED <<cap, lifeCalled, tdAt, tdUj, owed, overl>> /\ C03U /\ C04U /\ C02U
+EvLifeCall == /\ IsEv("LifeCall") /\ lifeCalled' = TRUE /\ UNCHANGED <<cap, owed, cancelled, overl>> /\ C03U /\ C04U /\ C02U
               /\ tdAt' = IF Ev.op \in {"destroy", "destroy_in_cb"} /\ tdAt < 0 THEN Ev.vt ELSE tdAt
               /\ tdUj' = IF Ev.op \in {"destroy", "destroy_in_cb"} /\ tdAt < 0 THEN Uj ELSE tdUj
 EvLifeRet == IsEv("LifeRet") /\ C03U /\ C04U /\ C02U /\ Keep
